@@ -1037,11 +1037,17 @@ func (l *lexer) scanRawToken() (tok int) {
 					l.unread()
 					return WORD
 				}
-				if len(l.stack) != 0 {
+				switch len(l.stack) {
+				case 0:
+					return '('
+				case 1:
 					l.bquote = true
 					return ')'
 				}
-				return '('
+				// a construct inside the substitution is still open
+				l.mark(-1)
+				l.error(l.pos, "syntax error: unexpected '`'")
+				return -1
 			}
 		case '\t', ' ':
 			// <blank>
